@@ -41,3 +41,38 @@ Print Assumptions C07_dropped_table_is.
 Print Assumptions C07_sound_refuted.
 Print Assumptions C07_sound_partial.
 Print Assumptions C07_block_sound_partial.
+
+(* ------------------------------------------------------------------------------------------------------------
+   Extension (second round): theorems from Lemmas/{WalkLemmas,OutputLemmas,TypeExec,NoMiss2,ParseLemmas2,PaddingLemmas}.v *)
+From Coq Require Import List String NArith ZArith Bool Arith.
+From Tealer Require Import Tables Leaves LeafPrelude Syntax Parse Cfg StackAst Keys Analysis Domains Detect Group Output Runs Eval Exec InsExec Paths WalkLemmas OutputLemmas TypeExec NoMiss2 ParseLemmas2 PaddingLemmas.
+
+(* END TO END: along every approving concrete execution the kind label of the governed transaction is in the set of every visited block, for programs whose kind comparisons avoid exactly the D16 triples on the side taken (type_leaves_ok) *)
+Theorem C07_sound_end_to_end_partial :
+  forall (e : env) (sem : opsem) (f : func) (L : string) (ty oc ap : N) (bc : list (nat * list string)) (fuel : nat)
+         (lo : list (nat * list string)) (cfgs : list rconfig),
+       sem_ok e sem ->
+       env_ok e ->
+       fn_intcs f = e_intcs e ->
+       ExecLemmas.graph_ok f ->
+       kind_fields e (e_own e) ty oc ap ->
+       TypeLemmas.in_range ty oc ap ->
+       In L TypeLemmas.c07_labels ->
+       TypeLemmas.carries ty oc ap L = true ->
+       type_leaves_ok f KSelf L ty oc ap ->
+       init_constraints (list string) ALL_TRANSACTION_TYPES nil lunion linter (type_single (fn_intcs f) KSelf) f = Some bc ->
+       solve (list string) lset_eqb ALL_TRANSACTION_TYPES nil lunion linter (type_single (fn_intcs f) KSelf) f fuel bc = Done lo ->
+       Accepts e sem f cfgs ->
+       forall (b : nat) (st : list nat), In (b, st) cfgs -> exists v : list string, lookup (list string) lo b = Some v /\ In L v.
+Proof. exact @C07_exec_sound_partial. Qed.
+
+(* the exclusion is exact: every excluded (pattern, side, label) triple really drops the label *)
+Theorem C07_exclusion_is_exact :
+  forall (intcs : option (list N)) (pat : TypeLemmas.pattern) (ty oc ap : N) (L : string) (p q pos : nat),
+       In (pat, TypeLemmas.pattern_truth pat ty oc ap, L) TypeLemmas.dropped_table ->
+       let tf := type_single intcs KSelf (TypeLemmas.pat_op pat false) pos (TypeLemmas.pat_args pat p q) in
+       ~ In L (if TypeLemmas.pattern_truth pat ty oc ap then fst tf else snd tf).
+Proof. exact @type_leaves_ok_exact. Qed.
+
+Print Assumptions C07_sound_end_to_end_partial.
+Print Assumptions C07_exclusion_is_exact.
